@@ -149,6 +149,11 @@ func genAnswer(t *rapid.T, qtype uint16) (out []RR) {
 	}
 	// Any order: the offending record must be found wherever it sits.
 	perm := rapid.Permutation(out).Draw(t, "order")
+	// A negative answer may legally carry a CNAME chain in its answer
+	// section; it is subject to the same filtering.
+	if rapid.IntRange(0, 5).Draw(t, "nxdomain") == 0 {
+		perm = append(perm, RR{T: "RCODE-NXDOMAIN"})
+	}
 	return perm
 }
 
@@ -265,6 +270,10 @@ func (r *runner) answer(req *dns.Msg) *dns.Msg {
 	m.SetReply(req)
 	name := strings.ToLower(strings.TrimSuffix(q.Name, "."))
 	for _, rr := range r.sc.Zone[fmt.Sprintf("%s|%d", name, q.Qtype)] {
+		if rr.T == "RCODE-NXDOMAIN" {
+			m.Rcode = dns.RcodeNameError
+			continue
+		}
 		m.Answer = append(m.Answer, buildRR(name, q.Qtype, rr))
 	}
 	return m
@@ -327,7 +336,19 @@ func (r *runner) query(op Op) error {
 	addr := netip.MustParseAddr(op.Addr)
 	name := op.Name
 	key := fmt.Sprintf("%s|%d", name, op.Qtype)
-	zone := r.sc.Zone[key]
+	zoneAll := r.sc.Zone[key]
+	wantRcode := dns.RcodeSuccess
+	var zone []RR
+	for _, rr := range zoneAll {
+		if rr.T == "RCODE-NXDOMAIN" {
+			wantRcode = dns.RcodeNameError
+			continue
+		}
+		zone = append(zone, rr)
+	}
+	if wantRcode != dns.RcodeSuccess {
+		r.c.Probe("negative_upstream_answer")
+	}
 	clientName, clientFilt := "", r.sc.Filtering
 	if r.sc.ClientOff && op.Addr == "192.0.2.2" {
 		clientName, clientFilt = "nofilter", false
@@ -432,8 +453,8 @@ func (r *runner) query(op Op) error {
 		}
 		return kernel.Violationf("answer-changed", "%s %s from %s (protection=%v filtering=%v qname verdict=%s): no record of the upstream answer is blocked, yet the client did not receive it unchanged\nupstream: %v\nclient:   %v (rcode %s)", name, dns.Type(op.Qtype), op.Addr, r.prot, clientFilt, reqStage.Verdict, want, got, dns.RcodeToString[rep.Msg.Rcode])
 	}
-	if rep.Msg.Rcode != dns.RcodeSuccess {
-		return kernel.Violationf("answer-changed", "%s %s: upstream NOERROR became %s", name, dns.Type(op.Qtype), dns.RcodeToString[rep.Msg.Rcode])
+	if rep.Msg.Rcode != wantRcode {
+		return kernel.Violationf("answer-changed", "%s %s: upstream %s became %s", name, dns.Type(op.Qtype), dns.RcodeToString[wantRcode], dns.RcodeToString[rep.Msg.Rcode])
 	}
 	return nil
 }
@@ -549,5 +570,5 @@ var Prop = &kernel.Property{
 	Stub:        []string{"upstream resolver (answer sections from the scenario's zone)", "client sockets", "query log / statistics (recorders)", "wall clock (synctest)"},
 	Assumptions: []string{"urlfilter's matching of one rule set against one host name / IP literal is trusted", "CNAME targets are matched as type CNAME, addresses as A/AAAA, hints as HTTPS for $dnstype purposes (documented behaviour of response filtering)"},
 	FaultKinds:  []string{"live_rule_change", "live_flag_change"},
-	ProbeNames:  []string{"blocked_by_response", "delivered_unchanged", "offender_CNAME", "offender_A", "offender_AAAA", "offender_HTTPS", "offender_not_first", "record_allowlisted", "protection_off_query", "filtering_off_query", "qname_allowlisted_query", "blocked_at_request_stage", "aaaa_disabled_query", "ipv6_hints_stripped"},
+	ProbeNames:  []string{"blocked_by_response", "delivered_unchanged", "offender_CNAME", "offender_A", "offender_AAAA", "offender_HTTPS", "offender_not_first", "record_allowlisted", "protection_off_query", "filtering_off_query", "qname_allowlisted_query", "blocked_at_request_stage", "aaaa_disabled_query", "ipv6_hints_stripped", "negative_upstream_answer"},
 }
